@@ -49,7 +49,11 @@ def screen_of(rows, arity, plates=None):
     td = np.array([[(0.0 if t < 0 else 1.0) for t in r[1:1 + arity]] for r in rows], dtype=float).reshape(len(rows), arity)
     sn = np.array(["s%d" % r[0] for r in rows], dtype=str)
     pn = np.array(["p%d" % (plates[i] if plates else i % 3) for i in range(len(rows))], dtype=str)
-    return Screen(treatment_names=tn, treatment_doses=td, sample_names=sn, plate_names=pn, control_treatment_name="ctl")
+    # the ids ARE the tokens, by explicit mappings (C09 is about predictions for given ids, not about how a screen numbers its names)
+    smap = (np.array(["s0", "s1"], dtype=str), np.array([0, 1]))
+    tmap = (np.array(["ctl"] + list(TN), dtype=str), np.array([0.0] + [1.0] * len(TN)), np.array([-1] + list(range(len(TN)))))
+    return Screen(treatment_names=tn, treatment_doses=td, sample_names=sn, plate_names=pn, control_treatment_name="ctl",
+                  sample_mapping=smap, treatment_mapping=tmap)
 
 
 BASE2 = [(0, 0, 1), (1, 2, -1), (0, -1, 2)]
